@@ -612,6 +612,10 @@ def run_shard(params, tier, acc):
                 % (r["hist"], r["probe"], r["result"][:600], want[:600]),
                 size=len(r["hist"]))
         acc.outcome("same" if r["result"] == want else "differs")
+        acc.outcome("probe:" + r["probe"])
+        if len(r["hist"]) == 2 and acc.evaluations % 301 == 0:
+            acc.sample(dict(history=r["hist"], probe=r["probe"],
+                            result=r["result"][:160]))
     acc.states += len(states)
     acc.sample(dict(first=params["first"], histories=len(rows),
                     hidden_states=len(states)))
